@@ -41,9 +41,16 @@ _B = {}
 EXEC = []
 
 
+WRAP = [False]
+
+
 def cached_fn(x, n):
     EXEC.append((x, n))
-    return {"x": x, "payload": "p" * n, "list": [x, n]}
+    out = {"x": x, "payload": "p" * n, "list": [x, n]}
+    if WRAP[0]:
+        from vlib.c14_helper import Flaky
+        out["flaky"] = Flaky(n)       # a part of the RESULT whose pickling can be made to fail
+    return out
 
 
 def cached_lib(kind, x):
@@ -394,6 +401,14 @@ def run_memory(case, ctx):
         # directives, containers whose repr has braces, very long and multi-line values must not matter
         x = rng.choice([rng.randrange(100), rng.randrange(100), {"alpha": 0.5, "k": [1, 2]}, {}, {1, 2, 3}, "{name}.csv", "a}b{", "100%s %d %(x)s", "{0} {} {!r}",
                         "line1\nline2\\", "x" * 3000, ("t", {"n": None}), None, b"{bytes}", [{"deep": {"er": "{}"}}], frozenset({"{"}), 1.5, "é{ü}"])
+        flaky = mmap_mode is not None and rng.random() < 0.5
+        if flaky:
+            # the recomputed result cannot be STORED (its pickling fails from now on): the damaged file stays where it is, and
+            # with mmap_mode joblib reads a fresh result back from the store
+            from vlib.c14_helper import Flaky
+            x = rng.randrange(100)
+            ctx.count("memory_entries_whose_recomputed_result_cannot_be_stored")
+        WRAP[0] = flaky
         if not isinstance(x, int):
             ctx.count("memory_entries_called_with_a_non_trivial_argument")
         n = rng.choice([0, 10, 5000, 20000])
@@ -423,6 +438,9 @@ def run_memory(case, ctx):
             lb.arm(40000 + 400 * len(data))
             cpu.arm(10.0)
             try:
+                if flaky:
+                    Flaky.FAIL[0] = True
+                    via_shelve = False
                 with warnings.catch_warnings():
                     warnings.simplefilter("ignore")
                     got = f.call_and_shelve(x, n).get() if via_shelve else f(x, n)
@@ -432,6 +450,8 @@ def run_memory(case, ctx):
             finally:
                 cpu.disarm()
                 lb.disarm()
+                if flaky:
+                    Flaky.FAIL[0] = False
             ctx.count("memory_damaged_calls")
             if kind.startswith("meta-"):
                 ctx.count("memory_damaged_metadata_calls")
@@ -458,4 +478,5 @@ def run_memory(case, ctx):
             with open(mpath, "wb") as fh:
                 fh.write(mraw)
     finally:
+        WRAP[0] = False
         shutil.rmtree(d, ignore_errors=True)
